@@ -92,7 +92,7 @@ fn top_cap(probe: &str) -> Option<usize> {
 /// The same sequence as another implementation might have encoded it: the last item carries its real offset and is followed by
 /// a terminating zero slot (the library itself always leaves the `MAX` marker on the last item). `probe` is the probe string of
 /// `state` (`ok:v=<as_bytes len>:z=<size()>:…`). `None` when the vector is empty or there is no room for the extra slot.
-fn terminate_chain(state: &[u8], l: &crate::shape::LenS, os: usize, probe: &str) -> Option<Vec<u8>> {
+fn terminate_chain(state: &[u8], l: &crate::shape::LenS, os: usize, slack: usize, probe: &str) -> Option<Vec<u8>> {
     let mut it = probe.split(':');
     if it.next()? != "ok" { return None; }
     let v: usize = it.next()?.strip_prefix("v=")?.parse().ok()?;
@@ -110,12 +110,13 @@ fn terminate_chain(state: &[u8], l: &crate::shape::LenS, os: usize, probe: &str)
         if next == l.max() { break; }
         pos += next as usize;
     }
-    if z < pos + os || z + os > v || v > state.len() { return None; }
-    let off = (z - pos) as u128;
+    // `slack` extra bytes (a multiple of the alignment) between the end of the last item and the terminating slot: also valid
+    if z < pos + os || z + slack + os > v || v > state.len() { return None; }
+    let off = (z + slack - pos) as u128;
     if off >= l.max() { return None; }
     let mut out = state.to_vec();
     out[pos..pos + l.size].copy_from_slice(&l.encode(off));
-    out[z..z + l.size].copy_from_slice(&l.encode(0));
+    out[z + slack..z + slack + l.size].copy_from_slice(&l.encode(0));
     Some(out)
 }
 
@@ -221,7 +222,8 @@ pub fn run(reg: &[Box<dyn TypeOps>], cfg: &Cfg, out: &mut dyn Write) {
                 if scripted.is_none() {
                     if let Shape::Flex(_, l) = &sh {
                         if rng.chance(1, 6) {
-                            if let Some(s2) = terminate_chain(&state, l, sh.data_offset(), &last_probe) { state = s2; }
+                            let slack = al * [0usize, 0, 1, 2][rng.below(4) as usize];
+                            if let Some(s2) = terminate_chain(&state, l, sh.data_offset(), slack, &last_probe) { state = s2; }
                         }
                     }
                 }
